@@ -31,7 +31,24 @@ Fixpoint snd_ok (pol : bool) (c : cond) : bool :=
   | CAnd l r | CElseIf l r => snd_ok pol l && snd_ok pol r
   | CUnion l r => pol && snd_ok true l && snd_ok true r
   | CNot c => snd_ok (negb pol) c
+  | CExists _ _ | CForAll _ _ => false     (* quantifiers: not covered by the proofs yet; sampled against the Spec *)
   end.
+
+Lemma snd_ok_qfree c : forall pol, snd_ok pol c = true -> qfree c = true.
+Proof.
+  induction c as [op l r|l IHl r IHr|l IHl r IHr|l IHl r IHr|c IH|e c IH|y c IH]; simpl; intros pol H; auto;
+    try discriminate.
+  - apply andb_prop in H as [Hl Hr]. rewrite (IHl _ Hl), (IHr _ Hr). reflexivity.
+  - apply andb_prop in H as [Hl Hr]. rewrite (IHl _ Hl), (IHr _ Hr). reflexivity.
+  - apply andb_prop in H as [H Hr]. apply andb_prop in H as [_ Hl]. rewrite (IHl _ Hl), (IHr _ Hr). reflexivity.
+  - eauto.
+Qed.
+
+Lemma qfree_fv c : qfree c = true -> cond_fv c = cond_vars c.
+Proof.
+  induction c as [op l r|l IHl r IHr|l IHl r IHr|l IHl r IHr|c IH|e c IH|y c IH]; simpl; intros H; auto;
+    try discriminate; apply andb_prop in H as [Hl Hr]; now rewrite IHl, IHr.
+Qed.
 
 Section Proofs.
   Variable W : world.
@@ -133,9 +150,10 @@ Section Proofs.
   Qed.
 
   (* ---------- conditions ---------- *)
-  Lemma eval_mono c : forall b b' f, In (b', f) (eval W D c b) -> forall rho, extends rho b' -> extends rho b.
+  Lemma eval_mono c : qfree c = true -> forall b b' f, In (b', f) (eval W D c b) -> forall rho, extends rho b' -> extends rho b.
   Proof.
-    induction c as [op l r|l IHl r IHr|l IHl r IHr|l IHl r IHr|c IH]; simpl; intros b b' f Hin rho He.
+    induction c as [op l r|l IHl r IHr|l IHl r IHr|l IHl r IHr|c IH|e c IH|y c IH]; simpl; intros Q b b' f Hin rho He; try discriminate;
+      try (apply andb_prop in Q as [Ql Qr]; specialize (IHl Ql); specialize (IHr Qr)); try specialize (IH Q).
     - eapply ev_cmp_sound; eauto.
     - apply in_flat_map in Hin as ([b1 f1] & H1 & H2). simpl in H2. destruct f1.
       + destruct H2 as [[= <- <-]|[]]. eauto.
@@ -150,9 +168,10 @@ Section Proofs.
     - apply in_map_iff in Hin as ([b1 f1] & [= <- <-] & H1). eauto.
   Qed.
 
-  Lemma eval_bok c : forall b b' f, In (b', f) (eval W D c b) -> b_ok b -> b_ok b'.
+  Lemma eval_bok c : qfree c = true -> forall b b' f, In (b', f) (eval W D c b) -> b_ok b -> b_ok b'.
   Proof.
-    induction c as [op l r|l IHl r IHr|l IHl r IHr|l IHl r IHr|c IH]; simpl; intros b b' f Hin Hb.
+    induction c as [op l r|l IHl r IHr|l IHl r IHr|l IHl r IHr|c IH|e c IH|y c IH]; simpl; intros Q b b' f Hin Hb; try discriminate;
+      try (apply andb_prop in Q as [Ql Qr]; specialize (IHl Ql); specialize (IHr Qr)); try specialize (IH Q).
     - eapply ev_cmp_bok; eauto.
     - apply in_flat_map in Hin as ([b1 f1] & H1 & H2). simpl in H2. destruct f1.
       + destruct H2 as [[= <- <-]|[]]. eauto.
@@ -170,9 +189,9 @@ Section Proofs.
   (* a result whose truth is [pol] tells the truth about every assignment it covers *)
   Lemma eval_sound c : forall pol b b',
     snd_ok pol c = true -> In (b', negb pol) (eval W D c b) ->
-    forall rho, extends rho b' -> sat W rho c = pol.
+    forall rho, extends rho b' -> sat W D rho c = pol.
   Proof.
-    induction c as [op l r|l IHl r IHr|l IHl r IHr|l IHl r IHr|c IH]; simpl; intros pol b b' Hok Hin rho He.
+    induction c as [op l r|l IHl r IHr|l IHl r IHr|l IHl r IHr|c IH|e c IH|y c IH]; simpl; intros pol b b' Hok Hin rho He; try discriminate.
     - destruct (ev_cmp_sound _ _ _ _ _ _ Hin rho He) as [_ Hf].
       destruct (apply_op W op (den W rho l) (den W rho r)), pol; simpl in Hf; congruence.
     - apply andb_prop in Hok as [Hl Hr].
@@ -183,14 +202,14 @@ Section Proofs.
       + (* left true, right decides *)
         destruct pol.
         * rewrite (IHr true _ _ Hr H2 rho He).
-          rewrite (IHl true _ _ Hl H1 rho (eval_mono _ _ _ _ H2 rho He)). reflexivity.
+          rewrite (IHl true _ _ Hl H1 rho (eval_mono r (snd_ok_qfree r _ Hr) _ _ _ H2 rho He)). reflexivity.
         * rewrite (IHr false _ _ Hr H2 rho He). apply andb_false_r.
     - apply andb_prop in Hok as [Hl Hr].
       apply in_flat_map in Hin as ([b1 f1] & H1 & H2). simpl in H2. destruct f1.
       + destruct pol.
         * rewrite (IHr true _ _ Hr H2 rho He). apply orb_true_r.
         * rewrite (IHr false _ _ Hr H2 rho He).
-          rewrite (IHl false _ _ Hl H1 rho (eval_mono _ _ _ _ H2 rho He)). reflexivity.
+          rewrite (IHl false _ _ Hl H1 rho (eval_mono r (snd_ok_qfree r _ Hr) _ _ _ H2 rho He)). reflexivity.
       + destruct H2 as [[= <- Hp]|[]]. destruct pol; [|discriminate].
         rewrite (IHl true _ _ Hl H1 rho He). reflexivity.
     - apply andb_prop in Hok as [Hok Hr]. apply andb_prop in Hok as [-> Hl]. simpl in Hin.
@@ -205,28 +224,29 @@ Section Proofs.
   Qed.
 
   (* every assignment is covered by a result that tells the truth about it -- for every condition *)
-  Lemma eval_complete c : forall b rho,
+  Lemma eval_complete c : qfree c = true -> forall b rho,
     extends rho b -> (forall x, In x (cond_vars c) -> In (rho x) (D x)) ->
-    exists b', In (b', negb (sat W rho c)) (eval W D c b) /\ extends rho b'.
+    exists b', In (b', negb (sat W D rho c)) (eval W D c b) /\ extends rho b'.
   Proof.
-    induction c as [op l r|l IHl r IHr|l IHl r IHr|l IHl r IHr|c IH]; simpl; intros b rho He Hd.
+    induction c as [op l r|l IHl r IHr|l IHl r IHr|l IHl r IHr|c IH|e c IH|y c IH]; simpl; intros Q b rho He Hd; try discriminate;
+      try (apply andb_prop in Q as [Ql Qr]; specialize (IHl Ql); specialize (IHr Qr)); try specialize (IH Q).
     - apply ev_cmp_complete; auto.
     - destruct (IHl b rho He) as (b1 & H1 & He1); [intros; apply Hd, in_or_app; auto|].
-      destruct (sat W rho l) eqn:Sl; simpl in *.
+      destruct (sat W D rho l) eqn:Sl; simpl in *.
       + destruct (IHr b1 rho He1) as (b2 & H2 & He2); [intros; apply Hd, in_or_app; auto|].
         exists b2. split; auto. apply in_flat_map. exists (b1, false). auto.
       + exists b1. split; auto. apply in_flat_map. exists (b1, true). split; simpl; auto.
     - destruct (IHl b rho He) as (b1 & H1 & He1); [intros; apply Hd, in_or_app; auto|].
-      destruct (sat W rho l) eqn:Sl; simpl in *.
+      destruct (sat W D rho l) eqn:Sl; simpl in *.
       + exists b1. split; auto. apply in_flat_map. exists (b1, false). split; simpl; auto.
       + destruct (IHr b1 rho He1) as (b2 & H2 & He2); [intros; apply Hd, in_or_app; auto|].
         exists b2. split; auto. apply in_flat_map. exists (b1, true). auto.
     - destruct (IHl b rho He) as (b1 & H1 & He1); [intros; apply Hd, in_or_app; auto|].
-      destruct (sat W rho l) eqn:Sl; simpl in *.
+      destruct (sat W D rho l) eqn:Sl; simpl in *.
       + exists b1. split; auto. apply in_or_app. left. apply in_flat_map. exists (b1, false). split; simpl; auto.
       + destruct (IHr b1 rho He1) as (b2 & H2 & He2); [intros; apply Hd, in_or_app; auto|].
         exists b2. split; auto. apply in_or_app. left. apply in_flat_map. exists (b1, true). auto.
     - destruct (IH b rho He Hd) as (b1 & H1 & He1).
-      exists b1. split; auto. apply in_map_iff. exists (b1, negb (sat W rho c)). auto.
+      exists b1. split; auto. apply in_map_iff. exists (b1, negb (sat W D rho c)). auto.
   Qed.
 End Proofs.
